@@ -4,7 +4,8 @@ and a scratch worktree of /repo's HEAD (/tmp/scan_repo), so checks can be edited
 usage: seedscan_iso.py [--out /tmp/scan_results.json] [--thorough] [seed dir names...]
 Results: {seed: {"caught_by": [...], "missed_by": [...], "head": <repo commit>}}; merge with --merge <file> (writes meta.json)."""
 import json, os, subprocess, sys
-V, R = "/tmp/scan_verif", "/tmp/scan_repo"
+TAG = os.environ.get("SCAN_TAG", "scan")
+V, R = "/tmp/%s_verif" % TAG, "/tmp/%s_repo" % TAG
 sys.path.insert(0, "/verif/tools")
 RELATED = {"C01": ["C01", "C02", "C03"], "C02": ["C02", "C01", "C03", "C08"], "C03": ["C03", "C01", "C02"], "C04": ["C04", "C01"],
            "C05": ["C05"], "C06": ["C06", "C01"], "C07": ["C07"], "C08": ["C08", "C02"], "C09": ["C09"], "C10": ["C10", "C01", "C09"],
